@@ -80,18 +80,32 @@ Valid(c) ==
     /\ c.backend
     /\ PeerOK(c)
 
+\* the clauses of Valid that a configuration violates (names the failing shape of a refused row)
+Why(c) ==
+    (IF c.ver \notin VNames THEN {"unknown-protocol-version"} ELSE {})
+    \cup (IF c.max \notin VNames THEN {"unknown-max-protocol-version"} ELSE {})
+    \cup (IF c.override \notin CNames THEN {"unknown-consistency-override"} ELSE {})
+    \cup (IF \E i \in DOMAIN c.unsup : c.unsup[i] \notin CNames THEN {"unknown-unsupported-consistency"} ELSE {})
+    \cup (IF c.hb >= c.idle THEN {"heartbeat-not-below-idle"} ELSE {})
+    \cup (IF c.conns < 1 THEN {"fewer-than-one-connection"} ELSE {})
+    \cup (IF c.ver \in VNames /\ c.max \in VNames /\ Rank(c.ver) > Rank(c.max) THEN {"version-above-max"} ELSE {})
+    \cup (IF ~c.backend THEN {"no-backend"} ELSE {})
+    \cup (IF Len(c.peers) > 0 /\ ~c.rpc THEN {"peers-without-rpc-address"} ELSE {})
+    \cup (IF \E i \in DOMAIN c.peers : ~c.peers[i].rpc THEN {"peer-entry-without-rpc-address"} ELSE {})
+    \cup (IF c.tokens /\ \E i \in DOMAIN c.peers : ~c.peers[i].tokens THEN {"tokens-not-for-every-peer"} ELSE {})
+
 \* consistency seen by the backend for a write sent with code x
 SeenCL(c, x) == IF \E i \in DOMAIN c.unsup : ConsistencyOf[c.unsup[i]] = x
                 THEN ConsistencyOf[c.override] ELSE x
 
 Outcome(c) ==
     IF Valid(c)
-    THEN [kind     |-> "run",
+    THEN [kind     |-> "run", why |-> {},
           startup  |-> VersionOf[c.ver],                 \* version of the first STARTUP the backend receives
           accepted |-> VersionOf[c.max],                 \* a client speaking the max version is served
           rejected |-> {VersionOf[n] : n \in {m \in VNames : Rank(m) > Rank(c.max) /\ ~Ambiguous(m, c.max)}},
           cl       |-> [i \in 1..11 |-> SeenCL(c, i - 1)]]   \* cl[code+1]
-    ELSE [kind |-> "refuse", startup |-> 0, accepted |-> 0, rejected |-> {}, cl |-> <<>>]
+    ELSE [kind |-> "refuse", why |-> Why(c), startup |-> 0, accepted |-> 0, rejected |-> {}, cl |-> <<>>]
 
 -----------------------------------------------------------------------------
 (* Enumeration of the input domain.  A row is                                  *)
@@ -100,6 +114,7 @@ Outcome(c) ==
 (*   given  the options that are supplied explicitly (the rest keep defaults)  *)
 (*   cfg    the abstract configuration                                         *)
 (*   sp     spelling variant of the option under test                          *)
+(*   mask   letter-case bit mask when sp = "mask" (else -1)                    *)
 (*   open   TRUE when the documentation leaves ACCEPTANCE of the row open      *)
 (*          (undocumented spelling, OSS-v5/DSE ordering): if the proxy runs    *)
 (*          the effect is still compared, if it refuses nothing is asserted    *)
@@ -108,9 +123,10 @@ Outcome(c) ==
 Srcs == {"flag", "env", "yaml"}
 SrcsOf(important) == IF Thorough \/ important THEN Srcs ELSE {"flag"}
 
-Mk(cls, src, given, cfg, sp, open) ==
-    [cls |-> cls, src |-> src, given |-> given, cfg |-> cfg, sp |-> sp, open |-> open,
+MkM(cls, src, given, cfg, sp, mask, open) ==
+    [cls |-> cls, src |-> src, given |-> given, cfg |-> cfg, sp |-> sp, mask |-> mask, open |-> open,
      expect |-> Outcome(cfg)]
+Mk(cls, src, given, cfg, sp, open) == MkM(cls, src, given, cfg, sp, -1, open)
 
 VSpell == {"doc", "lower", "upper", "num"}     \* "num": the decimal wire code
 
@@ -156,6 +172,19 @@ UnsupportedRows ==
         <<l, s>> \in {<<"ANY", "TWO", "EACH_QUORUM">>, <<"THREE", "ALL">>,
                       <<"SERIAL", "LOCAL_SERIAL", "LOCAL_ONE", "ONE">>} \X Srcs}
 
+\* thorough tier: EVERY letter-case variant of every name, in both roles.  A variant is a bit mask over
+\* the letters of the name (bit i set = letter i in upper case; the underscore is not a letter).
+Letters(n) == Len(n) - (IF n \in {"LOCAL_QUORUM", "EACH_QUORUM", "LOCAL_SERIAL", "LOCAL_ONE"} THEN 1 ELSE 0)
+Pow2(k) == LET RECURSIVE P(_)
+               P(i) == IF i = 0 THEN 1 ELSE 2 * P(i - 1)
+           IN P(k)
+Masks(n) == IF Thorough THEN 0..(Pow2(Letters(n)) - 1) ELSE {}
+AllCaseRows ==
+    UNION {{MkM("cl_override", "flag", {"unsup", "override"},
+                [Default EXCEPT !.unsup = <<OtherCL(n)>>, !.override = n], "mask", m, FALSE) : m \in Masks(n)} : n \in CNames}
+    \cup
+    UNION {{MkM("cl_unsupported", "flag", {"unsup"}, [Default EXCEPT !.unsup = <<n>>], "mask", m, FALSE) : m \in Masks(n)} : n \in CNames}
+
 UnknownCLs == {"BOGUS", "LOCAL", "LOCAL-QUORUM", "QUORUMS", "11"}
 UnknownCLRows ==
     {Mk("override_unknown", s, {"unsup", "override"},
@@ -177,7 +206,7 @@ HbIdleRows ==
         <<d, s>> \in {-1, 0, 1} \X Srcs}
     \cup
     {Mk("hb_idle", s, {"hb", "idle"}, [Default EXCEPT !.hb = i + d, !.idle = i], "doc", FALSE) :
-        <<i, d, s>> \in {2, 2000, 3600000} \X {-1, 0, 1} \X Srcs}
+        <<i, d, s>> \in {1000, 2500, 3600000} \X {-1, 0, 1} \X Srcs}
 
 ConnsRows ==
     {Mk("conns", s, {"conns"}, [Default EXCEPT !.conns = n], "doc", FALSE) :
@@ -195,7 +224,7 @@ PeersRows ==
         <<pl, r, t, s>> \in PeerLists \X BOOLEAN \X BOOLEAN \X SrcsOf(FALSE)}
 
 Rows == VerSpellingRows \cup MaxSpellingRows \cup PairRows \cup UnknownVerRows
-        \cup OverrideRows \cup UnsupportedRows \cup UnknownCLRows
+        \cup OverrideRows \cup UnsupportedRows \cup AllCaseRows \cup UnknownCLRows
         \cup HbIdleRows \cup ConnsRows \cup BackendRows \cup PeersRows
 
 \* options that have no environment variable (run.go struct tags / help text show no `$VAR`)
@@ -213,6 +242,8 @@ RowSane ==
     /\ row.expect = Outcome(row.cfg)
     /\ row.expect.kind \in {"run", "refuse"}
     /\ (row.expect.kind = "run" <=> Valid(row.cfg))
+    /\ (Valid(row.cfg) <=> Why(row.cfg) = {})
+    /\ row.expect.why = Why(row.cfg)
     \* a running proxy never rejects the version it was told to accept, and talks a version it accepts
     /\ (row.expect.kind = "run" =>
             /\ row.expect.accepted \notin row.expect.rejected
